@@ -249,7 +249,8 @@ func (pipeline *IncrementalPipeline) sync(job *job, ctx context.Context) (int, e
 						transformTS := time.Now()
 
 						parallelisms := pipeline.transform.getParallelism()
-						if len(entities) < parallelisms {
+						if len(entities) < parallelisms || parallelisms < 1 {
+							// a configured Parallelism of 0 or less started no worker at all
 							parallelisms = 1
 						}
 
